@@ -609,32 +609,38 @@ func (iv *c11Inv) verify() {
 	}
 	// INV-valid: dispatcher guards (IsValid dominates handle) are checked by C14.R4; IsValid itself: returns true only when len(Array) != 0
 	if iv2 := p.Func(redisPkg, "(*rawRequest).IsValid"); iv2 != nil {
-		ok := false
-		eachInstr(iv2, func(b *ssa.BasicBlock, _ int, in ssa.Instruction) {
-			bo, isBo := in.(*ssa.BinOp)
-			if !isBo || bo.Op != token.EQL {
+		// every `return true` is reached only over branch edges that establish len(Array) >= 1 (whatever way the test is
+		// spelled: ==0 / !=0 / >0, negated, or combined with && / ||)
+		isLenArray := func(v ssa.Value) bool {
+			call, isCall := v.(*ssa.Call)
+			if !isCall || !isBuiltin(call, "len") {
+				return false
+			}
+			f, _ := loadedField(call.Call.Args[0])
+			return f != nil && f.Name() == "Array"
+		}
+		ok, nTrue := true, 0
+		eachInstr(iv2, func(b2 *ssa.BasicBlock, _ int, x ssa.Instruction) {
+			ret, isRet := x.(*ssa.Return)
+			if !isRet {
 				return
 			}
-			call, isCall := bo.X.(*ssa.Call)
-			z, isZ := constInt(bo.Y)
-			if isCall && isBuiltin(call, "len") && isZ && z == 0 {
-				if f, _ := loadedField(call.Call.Args[0]); f != nil && f.Name() == "Array" {
-					// every `return true` is on the false edge
-					okAll := true
-					eachInstr(iv2, func(b2 *ssa.BasicBlock, _ int, x ssa.Instruction) {
-						if ret, isRet := x.(*ssa.Return); isRet {
-							v := returnedValues(ret)[0]
-							if cv, isC := v.(*ssa.Const); isC && cv.Value != nil && cv.Value.String() == "true" {
-								if !condEdge(b2, bo, false) {
-									okAll = false
-								}
-							}
-						}
-					})
-					ok = okAll
+			v := returnedValues(ret)[0]
+			if cv, isC := v.(*ssa.Const); isC && cv.Value != nil && cv.Value.String() == "false" {
+				return
+			}
+			nTrue++
+			established := false
+			for _, a := range atomsAt(b2, 0) {
+				if atomImpliesAtLeastOne(a, isLenArray) {
+					established = true
 				}
 			}
+			if !established {
+				ok = false
+			}
 		})
+		ok = ok && nTrue > 0
 		c.Check(ok, "R1", "INV-valid: IsValid()==true implies a non-empty array", iv2.Pos(), "every `return true` is dominated by len(Array) != 0", "IsValid can return true for an empty array (the test is not on the length): the dispatcher then indexes element 0 of \"*0\\r\\n\" and the proxy crashes")
 		// dispatcher: handle call dominated by IsValid()==true is C14.R4; re-check here because R1 relies on it
 		checkDispatcherGuards(c, "R1")
